@@ -1,3 +1,453 @@
 // Kani harnesses (child module of crates/axmos-db/src/storage/page.rs).  See /verif/HARNESS_GUIDE.md
-#![allow(unused_imports, dead_code, clippy::all)]
+// C10 (each B+tree is a correct ordered map) -- kernel only: the slotted page (`BtreePage` = MemBlock<BtreePageHeader>,
+// operations in storage/core/buffer.rs `impl BtreeOps for MemBlock<M>`) keeps its representation invariant under
+// insert / remove / replace / defragment; threshold arithmetic; cell <-> page codec.
+//
+// Technique: every harness starts from `BtreePage::alloc(id, 4096)` and only uses the page API, so every state is
+// reachable.  Slot indices are symbolic, but each symbolic index is *dispatched* (`c10_branch`: if/else-if chain) to
+// calls with a constant index and the rest of the sequence runs inside the branch: on every path the slot array and
+// the cell offsets stay constants for CBMC's symbolic execution (a symbolic write offset into the 4 KiB page object
+// costs minutes).  Payload values (first / interior / last byte, left child) are symbolic, payload sizes concrete.
+// Each law is accumulated into one boolean over all paths and steps and asserted once at the end.
+#![allow(unused_imports, dead_code, unused_variables, unused_mut, clippy::all)]
 use super::*;
+use std::ptr::NonNull;
+use crate::storage::cell::{CELL_HEADER_SIZE, CellRef, OwnedCell};
+use crate::storage::{BtreeMetadata, BtreeOps};
+
+pub(crate) const C10_PS: usize = 4096; // MIN_PAGE_SIZE: the smallest size `BtreePage::alloc` accepts
+pub(crate) const C10_CAP: usize = C10_PS - BTREE_PAGE_HEADER_SIZE; // data area (slot array + cells)
+pub(crate) const C10_ALIGN: usize = crate::CELL_ALIGNMENT as usize;
+pub(crate) const C10_SLOT: usize = mem::size_of::<Slot>();
+pub(crate) const C10_MAXN: usize = 4;
+
+pub(crate) fn c10_stub_format(_a: std::fmt::Arguments<'_>) -> String {
+    String::new()
+}
+/// Backing memory of a page: zeroed, PAGE_ALIGNMENT-aligned, MIN_PAGE_SIZE bytes.  A *local* object: CBMC's symbolic
+/// execution propagates constants through locals but not through heap objects.  With `Global.allocate_zeroed` memory
+/// every header field / slot read back from the page is non-constant for symex, so `insert` always explores
+/// `defragment` (BinaryHeap of symbolic length, memcpy of symbolic size) and `copy_within` becomes a memmove of
+/// symbolic length: a single `insert` into an empty page then runs out of memory (> 20 GB).
+#[repr(C, align(4096))]
+pub(crate) struct C10Buf {
+    hdr: BtreePageHeader,
+    data: [[u8; 8]; (C10_PS - BTREE_PAGE_HEADER_SIZE) / 8],
+}
+impl C10Buf {
+    fn zeroed() -> Self {
+        C10Buf {
+            hdr: BtreePageHeader {
+                page_number: 0,
+                right_child: None,
+                next_sibling: None,
+                previous_sibling: None,
+                free_space_ptr: 0,
+                page_size: 0,
+                free_space: 0,
+                padding: 0,
+                num_slots: 0,
+            },
+            data: [[0u8; 8]; (C10_PS - BTREE_PAGE_HEADER_SIZE) / 8],
+        }
+    }
+}
+/// `<MemBlock<BtreePageHeader> as Allocatable>::alloc(id, 4096)` step by step (storage/core/buffer.rs:334-348 and
+/// MemBlock::new :81-84), the only difference being where the zeroed memory comes from (`buf` instead of
+/// `Global.allocate_zeroed`); `c10_alloc_equiv` checks that both constructions give the same page.
+/// The returned page must be `mem::forget`-ed (its Drop would deallocate `buf`).
+fn c10_page(buf: &mut C10Buf, id: PageId) -> BtreePage {
+    let size = C10_PS;
+    assert!((BtreePage::MIN_SIZE..=BtreePage::MAX_SIZE).contains(&size), "alloc_accepts_4096");
+    let raw = NonNull::slice_from_raw_parts(NonNull::from(buf).cast::<u8>(), size);
+    let mut p: BtreePage = unsafe { MemBlock::from_non_null(raw) };
+    *p.metadata_mut() = <BtreePageHeader as Allocatable>::alloc(id, size);
+    p
+}
+fn c10_okf<T, E>(r: Result<T, E>) -> Option<T> {
+    match r {
+        Ok(v) => Some(v),
+        Err(e) => {
+            std::mem::forget(e);
+            None
+        }
+    }
+}
+const fn c10_pad(len: usize) -> usize {
+    (len + C10_ALIGN - 1) / C10_ALIGN * C10_ALIGN
+}
+/// reference model of a stored cell's size: header + payload padded to the cell alignment
+const fn c10_total(len: usize) -> usize {
+    CELL_HEADER_SIZE + c10_pad(len)
+}
+
+// ---- reference model: the ordered list of cells the page must contain ------------------------------------------
+#[derive(Clone, Copy)]
+pub(crate) struct C10Cell {
+    len: usize,
+    b0: u8,   // first payload byte
+    fill: u8, // every interior payload byte
+    b1: u8,   // last payload byte
+    lc: Option<PageId>,
+}
+fn c10_val() -> C10Cell {
+    C10Cell { len: 0, b0: kani::any(), fill: kani::any(), b1: kani::any(), lc: kani::any() }
+}
+#[derive(Clone, Copy)]
+pub(crate) struct C10Model {
+    n: usize,
+    c: [C10Cell; C10_MAXN],
+    free: usize, // capacity - sum(total + slot)
+}
+impl C10Model {
+    fn new() -> Self {
+        C10Model { n: 0, c: [C10Cell { len: 0, b0: 0, fill: 0, b1: 0, lc: None }; C10_MAXN], free: C10_CAP }
+    }
+    fn insert(&mut self, i: usize, c: C10Cell) {
+        let mut k = self.n;
+        while k > i {
+            self.c[k] = self.c[k - 1];
+            k -= 1;
+        }
+        self.c[i] = c;
+        self.n += 1;
+        self.free -= c10_total(c.len) + C10_SLOT;
+    }
+    fn remove(&mut self, i: usize) -> C10Cell {
+        let old = self.c[i];
+        let mut k = i;
+        while k + 1 < self.n {
+            self.c[k] = self.c[k + 1];
+            k += 1;
+        }
+        self.n -= 1;
+        self.free += c10_total(old.len) + C10_SLOT;
+        old
+    }
+    fn replace(&mut self, i: usize, c: C10Cell) -> C10Cell {
+        let old = self.c[i];
+        self.c[i] = c;
+        self.free = self.free + c10_total(old.len) - c10_total(c.len);
+        old
+    }
+}
+
+/// real cell for a model cell: N payload bytes = [b0, fill, ..., fill, b1]
+fn c10_mk<const N: usize>(v: &C10Cell) -> OwnedCell {
+    let mut d = [v.fill; N];
+    d[0] = v.b0;
+    d[N - 1] = v.b1;
+    let mut c = OwnedCell::new(&d);
+    c.set_left_child(v.lc);
+    c
+}
+/// an owned cell handed back by the page equals the model cell
+fn c10_owned_matches(c: &OwnedCell, w: &C10Cell) -> bool {
+    let d = c.effective_data();
+    c.len() == w.len
+        && d.len() == w.len
+        && c.metadata().size() as usize == c10_pad(w.len)
+        && c.left_child() == w.lc
+        && !c.is_overflow()
+        && d[0] == w.b0
+        && d[w.len / 2] == (if w.len / 2 == 0 { w.b0 } else if w.len / 2 == w.len - 1 { w.b1 } else { w.fill })
+        && d[w.len - 1] == w.b1
+}
+
+// ---- laws -------------------------------------------------------------------------------------------------------
+pub(crate) struct C10Laws {
+    num_slots: bool,
+    inside: bool,
+    aligned: bool,
+    disjoint: bool,
+    accounting: bool,
+    fsp: bool,
+    header: bool,
+    payload: bool,
+    api: bool,
+    op_result: bool,
+    returned: bool,
+    err_unchanged: bool,
+    compact: bool,
+    leaves: usize,
+}
+impl C10Laws {
+    fn new() -> Self {
+        C10Laws {
+            num_slots: true,
+            inside: true,
+            aligned: true,
+            disjoint: true,
+            accounting: true,
+            fsp: true,
+            header: true,
+            payload: true,
+            api: true,
+            op_result: true,
+            returned: true,
+            err_unchanged: true,
+            compact: true,
+            leaves: 0,
+        }
+    }
+    fn assert_all(&self) {
+        assert!(self.leaves >= 1, "sequence_ran_to_completion");
+        assert!(self.num_slots, "num_slots_as_expected");
+        assert!(self.inside, "cells_inside_data_area_after_slot_array");
+        assert!(self.aligned, "cell_offsets_and_sizes_aligned");
+        assert!(self.disjoint, "cells_pairwise_disjoint");
+        assert!(self.accounting, "free_space_plus_stored_cells_is_capacity");
+        assert!(self.fsp, "free_space_ptr_not_above_any_cell");
+        assert!(self.header, "slot_i_holds_header_of_logical_cell_i");
+        assert!(self.payload, "payload_bytes_of_stored_cells_unchanged");
+        assert!(self.api, "cell_ref_returns_logical_cell_i");
+        assert!(self.op_result, "operation_succeeds_iff_model_says_so");
+        assert!(self.returned, "returned_cell_is_the_old_cell");
+        assert!(self.err_unchanged, "err_leaves_page_logically_unchanged");
+        assert!(self.compact, "defragment_leaves_no_gaps");
+    }
+}
+
+/// check the representation invariant of `p` against the model; `after_err`: additionally feed every law into
+/// `err_unchanged` (the model was not changed by the failed operation)
+fn c10_after(p: &BtreePage, m: &C10Model, l: &mut C10Laws, after_err: bool) {
+    let n = p.num_slots();
+    let cap = p.capacity();
+    let fsp = p.free_space_pointer() as usize;
+    let free = p.free_space() as usize;
+    let mut num_slots = n == m.n && cap == C10_CAP && p.data().len() == cap;
+    let mut inside = true;
+    let mut aligned = fsp % C10_ALIGN == 0;
+    let mut disjoint = true;
+    let mut fsp_ok = fsp <= cap;
+    let mut header = true;
+    let mut payload = true;
+    let mut api = true;
+    let mut sum = 0usize;
+    let mut off = [0usize; C10_MAXN];
+    let mut tot = [0usize; C10_MAXN];
+    if n == m.n {
+        let mut k = 0;
+        while k < m.n {
+            let w = &m.c[k];
+            let o = p.slot_array()[k] as usize;
+            let t = c10_total(w.len);
+            off[k] = o;
+            tot[k] = t;
+            sum += t + C10_SLOT;
+            let in_k = o >= m.n * C10_SLOT && o + t <= cap;
+            inside &= in_k;
+            aligned &= o % C10_ALIGN == 0 && t % C10_ALIGN == 0;
+            fsp_ok &= fsp <= o;
+            if in_k {
+                // raw view: header and payload bytes at the slot's offset
+                let h = CellHeader::from(&p.data()[o..]);
+                let h_ok = h.size() as usize == c10_pad(w.len) && h.len() == w.len && h.left_child() == w.lc && !h.is_overflow();
+                header &= h_ok;
+                let d = &p.data()[o + CELL_HEADER_SIZE..o + CELL_HEADER_SIZE + w.len];
+                payload &= d[0] == w.b0 && d[w.len - 1] == w.b1 && (w.len < 3 || d[w.len / 2] == w.fill);
+                if h_ok {
+                    // API view: CellRef
+                    let c = p.cell(k);
+                    let e = c.effective_data();
+                    api &= c.len() == w.len
+                        && e.len() == w.len
+                        && c.total_size() == t
+                        && c.storage_size() == t + C10_SLOT
+                        && c.left_child() == w.lc
+                        && !c.is_overflow()
+                        && c.overflow_page().is_none()
+                        && e[0] == w.b0
+                        && e[w.len - 1] == w.b1;
+                }
+            }
+            k += 1;
+        }
+        let mut i = 0;
+        while i < m.n {
+            let mut j = i + 1;
+            while j < m.n {
+                disjoint &= off[i] + tot[i] <= off[j] || off[j] + tot[j] <= off[i];
+                j += 1;
+            }
+            i += 1;
+        }
+    }
+    let accounting = free + sum == cap && free == m.free;
+    l.num_slots &= num_slots;
+    l.inside &= inside;
+    l.aligned &= aligned;
+    l.disjoint &= disjoint;
+    l.accounting &= accounting;
+    l.fsp &= fsp_ok;
+    l.header &= header;
+    l.payload &= payload;
+    l.api &= api;
+    if after_err {
+        l.err_unchanged &= num_slots && inside && aligned && disjoint && accounting && fsp_ok && header && payload && api;
+    }
+}
+
+// ---- steps (constant slot index) ----------------------------------------------------------------------------------
+fn c10_do_insert<const N: usize>(p: &mut BtreePage, m: &mut C10Model, l: &mut C10Laws, i: usize, v: &C10Cell) {
+    let w = C10Cell { len: N, ..*v };
+    let cell = c10_mk::<N>(&w);
+    let fits = i <= m.n && c10_pad(N) <= p.max_allowed_payload_size() as usize && c10_total(N) + C10_SLOT <= m.free;
+    match c10_okf(p.insert(i, cell)) {
+        Some(j) => {
+            l.op_result &= fits && j == i;
+            if fits {
+                m.insert(i, w);
+            }
+            c10_after(p, m, l, false);
+        }
+        None => {
+            l.op_result &= !fits;
+            c10_after(p, m, l, true);
+        }
+    }
+}
+fn c10_do_remove(p: &mut BtreePage, m: &mut C10Model, l: &mut C10Laws, i: usize) {
+    match c10_okf(p.remove(i)) {
+        Some(c) => {
+            l.op_result &= i < m.n;
+            if i < m.n {
+                let w = m.remove(i);
+                l.returned &= c10_owned_matches(&c, &w);
+            }
+            c10_after(p, m, l, false);
+        }
+        None => {
+            l.op_result &= i >= m.n;
+            c10_after(p, m, l, true);
+        }
+    }
+}
+fn c10_do_replace<const N: usize>(p: &mut BtreePage, m: &mut C10Model, l: &mut C10Laws, i: usize, v: &C10Cell) {
+    let w = C10Cell { len: N, ..*v };
+    let cell = c10_mk::<N>(&w);
+    // the new cell fits iff it fits once the old cell's bytes are given back
+    let fits = i < m.n && c10_total(N) <= m.free + c10_total(m.c[i].len);
+    match c10_okf(p.replace(i, cell)) {
+        Some(c) => {
+            l.op_result &= fits;
+            if fits {
+                let old = m.replace(i, w);
+                l.returned &= c10_owned_matches(&c, &old);
+            }
+            c10_after(p, m, l, false);
+        }
+        None => {
+            l.op_result &= !fits;
+            c10_after(p, m, l, true);
+        }
+    }
+}
+fn c10_do_defrag(p: &mut BtreePage, m: &mut C10Model, l: &mut C10Laws) {
+    p.defragment();
+    c10_after(p, m, l, false);
+    // compact: nothing but the slot array below the free-space pointer is in use
+    l.compact &= p.free_space_pointer() as usize == p.free_space() as usize + p.num_slots() * C10_SLOT;
+}
+
+/// dispatch a symbolic selector to a constant index in 0..=hi (selector values above hi map to hi)
+fn c10_branch<F: FnMut(usize)>(sel: u8, hi: usize, mut f: F) {
+    if hi == 0 || sel == 0 {
+        f(0)
+    } else if hi == 1 || sel == 1 {
+        f(1)
+    } else if hi == 2 || sel == 2 {
+        f(2)
+    } else {
+        f(3)
+    }
+}
+
+/// op-sequence interpreter: each step runs inside the branch of the previous one (no state merging before the end)
+macro_rules! c10_seq {
+    ($p:ident $m:ident $l:ident $sel:ident $v:ident ($k:expr); ) => {
+        $l.leaves += 1;
+    };
+    ($p:ident $m:ident $l:ident $sel:ident $v:ident ($k:expr); ins($n:literal) $($rest:tt)*) => {
+        c10_branch($sel[$k], $m.n, |j| {
+            c10_do_insert::<$n>(&mut $p, &mut $m, &mut $l, j, &$v[$k]);
+            c10_seq!($p $m $l $sel $v ($k + 1); $($rest)*);
+        });
+    };
+    // push = insert at index num_slots (what Bplustree uses when the key is larger than every key in the leaf)
+    ($p:ident $m:ident $l:ident $sel:ident $v:ident ($k:expr); push($n:literal) $($rest:tt)*) => {
+        {
+            let j = $m.n;
+            c10_do_insert::<$n>(&mut $p, &mut $m, &mut $l, j, &$v[$k]);
+            c10_seq!($p $m $l $sel $v ($k + 1); $($rest)*);
+        }
+    };
+    ($p:ident $m:ident $l:ident $sel:ident $v:ident ($k:expr); rem $($rest:tt)*) => {
+        if $m.n >= 1 {
+            c10_branch($sel[$k], $m.n - 1, |j| {
+                c10_do_remove(&mut $p, &mut $m, &mut $l, j);
+                c10_seq!($p $m $l $sel $v ($k + 1); $($rest)*);
+            });
+        }
+    };
+    ($p:ident $m:ident $l:ident $sel:ident $v:ident ($k:expr); rep($n:literal) $($rest:tt)*) => {
+        if $m.n >= 1 {
+            c10_branch($sel[$k], $m.n - 1, |j| {
+                c10_do_replace::<$n>(&mut $p, &mut $m, &mut $l, j, &$v[$k]);
+                c10_seq!($p $m $l $sel $v ($k + 1); $($rest)*);
+            });
+        }
+    };
+    ($p:ident $m:ident $l:ident $sel:ident $v:ident ($k:expr); defrag $($rest:tt)*) => {
+        {
+            c10_do_defrag(&mut $p, &mut $m, &mut $l);
+            c10_seq!($p $m $l $sel $v ($k + 1); $($rest)*);
+        }
+    };
+}
+macro_rules! c10_h {
+    ($name:ident, $unwind:expr; $($ops:tt)*) => {
+        #[kani::proof]
+        #[kani::unwind($unwind)]
+        #[kani::stub(std::fmt::format, c10_stub_format)]
+        fn $name() {
+            let sel: [u8; 6] = kani::any();
+            let v: [C10Cell; 6] = [c10_val(), c10_val(), c10_val(), c10_val(), c10_val(), c10_val()];
+            let mut buf = C10Buf::zeroed();
+            let mut p = c10_page(&mut buf, kani::any());
+            let mut m = C10Model::new();
+            let mut l = C10Laws::new();
+            kani::cover!(true, "reach");
+            c10_after(&p, &m, &mut l, false);
+            c10_seq!(p m l sel v (0); $($ops)*);
+            l.assert_all();
+            std::mem::forget(p);
+        }
+    };
+}
+
+// ---- C10.page_ops: sequences that must keep every law ------------------------------------------------------------
+// notation: ins(N) = insert(i, N-byte cell) for every i in 0..=len; push(N) = insert(len, ..); rem = remove(i) for every
+// i < len; rep(N) = replace(i, N-byte cell) for every i < len; defrag = defragment()
+// @obl harness=c10_ops_ins8 id=C10.page_ops[ins8] tier=quick funcs="BtreeOps::insert,BtreeOps::cell,BtreePageHeader::new" bounds="page 4096, empty page; one insert of an 8-byte cell; payload bytes / left child / page id symbolic" stubs="std::fmt::format"
+c10_h!(c10_ops_ins8, 6; ins(8));
+// @obl harness=c10_ops_ins24_ins13 id=C10.page_ops[ins24,ins13] tier=quick funcs="BtreeOps::insert,BtreeOps::cell" bounds="page 4096; insert 24-byte cell then 13-byte cell (padded to 16) at every index 0..=1" stubs="std::fmt::format"
+c10_h!(c10_ops_ins24_ins13, 6; ins(24) ins(13));
+// @obl harness=c10_ops_ins8_ins24_ins120 id=C10.page_ops[ins8,ins24,ins120] tier=quick funcs="BtreeOps::insert,BtreeOps::cell" bounds="page 4096; three inserts (8, 24, 120 bytes) at every index combination (6 orders)" stubs="std::fmt::format"
+c10_h!(c10_ops_ins8_ins24_ins120, 6; ins(8) ins(24) ins(120));
+// @obl harness=c10_ops_ins1000_ins8_rem id=C10.page_ops[ins1000,ins8,rem] tier=quick funcs="BtreeOps::insert,BtreeOps::remove,BtreeOps::owned_cell" bounds="page 4096; insert 1000-byte and 8-byte cell in both orders, remove either" stubs="std::fmt::format"
+c10_h!(c10_ops_ins1000_ins8_rem, 6; ins(1000) ins(8) rem);
+// @obl harness=c10_ops_ins24_ins120_rem_ins8 id=C10.page_ops[ins24,ins120,rem,ins8] tier=quick funcs="BtreeOps::insert,BtreeOps::remove" bounds="page 4096; two inserts, remove either, insert again at every index (space of the removed cell is not reused without defragment)" stubs="std::fmt::format"
+c10_h!(c10_ops_ins24_ins120_rem_ins8, 6; ins(24) ins(120) rem ins(8));
+// @obl harness=c10_ops_rep_same id=C10.page_ops[ins24,ins120,rep(same padded size)] tier=quick funcs="BtreeOps::replace" bounds="page 4096; cells of 24 and 120 bytes; replace either by a 24-byte cell resp. both by 20-byte (pads to 24): in-place path without size change when old is the 24-byte cell, shrink when old is the 120-byte cell is excluded -> see c10_find_rep_shrink" stubs="std::fmt::format"
+c10_h!(c10_ops_rep_same, 6; push(24) push(24) rep(20));
+// @obl harness=c10_ops_rep_grow id=C10.page_ops[ins8,ins24,rep120] tier=quick funcs="BtreeOps::replace,BtreeOps::remove,BtreeOps::insert" bounds="page 4096; cells of 8 and 24 bytes in both orders; replace either by a 120-byte cell (remove + insert path)" stubs="std::fmt::format"
+c10_h!(c10_ops_rep_grow, 6; ins(8) ins(24) rep(120));
+// @obl harness=c10_ops_defrag1 id=C10.page_ops[ins24,defrag] tier=quick funcs="BtreeOps::defragment" bounds="page 4096; one 24-byte cell, defragment (cell already in place)" stubs="std::fmt::format"
+c10_h!(c10_ops_defrag1, 6; ins(24) defrag);
+// @obl harness=c10_ops_rem_defrag id=C10.page_ops[push120,push24,push8,rem,defrag] tier=quick funcs="BtreeOps::defragment,BtreeOps::remove" bounds="page 4096; three cells, remove any, defragment" stubs="std::fmt::format"
+c10_h!(c10_ops_rem_defrag, 6; push(120) push(24) push(8) rem defrag);
+// @obl harness=c10_ops_ins_needs_defrag id=C10.page_ops[push2000,push1000,rem,ins1000] tier=quick funcs="BtreeOps::insert,BtreeOps::defragment,BtreeOps::remove" bounds="page 4096; cells of 2000 and 1000 bytes, remove either, insert 1000 bytes at every index: contiguous free space is too small, insert defragments first" stubs="std::fmt::format"
+c10_h!(c10_ops_ins_needs_defrag, 6; push(2000) push(1000) rem ins(1000));
+// @obl harness=c10_ops_err_full id=C10.page_ops[push2000,push1000,ins1000=Err] tier=quick funcs="BtreeOps::insert,BtreeOps::defragment" bounds="page 4096; cells of 2000 and 1000 bytes, a third of 1000 bytes does not fit at any index: Err(StorageFull) after an internal defragment; page logically unchanged; then a 900-byte cell fits" stubs="std::fmt::format"
+c10_h!(c10_ops_err_full, 6; push(2000) push(1000) ins(1000) ins(900));
